@@ -483,6 +483,11 @@ func concBody(name string, setup []string, threads [][]string) func() {
 						x.changed = true
 					}
 					results[ti] = append(results[ti], codeOf(err))
+					// "deleting an absent mode reports NotFound unless allow-missing is set, in which case it succeeds":
+					// whatever the other threads do meanwhile, a delete with allow-missing has nothing to report NotFound for
+					if o.kind == "delete" && o.allow && status.Code(err) == codes.NotFound {
+						verifrt.Logf("FAIL allow-missing-delete-notfound %s ## %s answered NotFound although allow-missing was set", name, n)
+					}
 				}
 			}()
 		}
@@ -571,5 +576,8 @@ func main() {
 	conc([]string{A, AN}, []string{"ChangeToNormalMode"}, []string{"UpdateMode(y,normal=false)", "UpdateMode(x,normal=true)"})
 	conc([]string{A, AN}, []string{"srv.ClearActiveMode"}, []string{"srv.DeleteMode(y,allowMissing=false)"})
 	conc([]string{A, AN}, []string{"srv.UpdateActiveMode(x)"}, []string{"srv.DeleteMode(x,allowMissing=false)"})
+	// two callers deleting the same mode, both prepared to find it gone
+	conc([]string{A, AN}, []string{"srv.DeleteMode(x,allowMissing=true)"}, []string{"srv.DeleteMode(x,allowMissing=true)"})
+	conc([]string{A, AN}, []string{"DeleteMode(x,allowMissing=true)"}, []string{"DeleteMode(x,allowMissing=true)"})
 	h.Run()
 }
